@@ -636,6 +636,41 @@ theorem subpixel_offset_decomposition_partial (L : InfL) (t : Rat) :
   simp only [InfL.evolveWith]
   refine ⟨by ring, by ring, trivial⟩
 
+/-- **The read-out request** (`InfL.interpRequest`, executed by the driver and compared with the intercepted
+`affine_transform` call of every `evolve_until` of an interpolating layer): the screen is asked at its own pixel grid
+(`matrix = [1, 1]`, spline order 5, `mode='nearest'`) displaced by an offset that is — per axis, in pixels of that
+axis, in (row, column) = (y, x) order — minus the part of the accumulated displacement the extrusions have not
+taken: `centre/δ = whole pixels − offset`.  On a whole-pixel displacement the offset is zero.  (The spline operator
+itself is SciPy's and stays outside the model: `subpixel_offset_decomposition_partial`.) -/
+theorem interp_request_offset (L : InfL) (t : Rat) (hx : L.delta.1 ≠ 0) (hy : L.delta.2 ≠ 0) :
+    let L' := L.evolveWith sideX sideY t
+    L'.center.1 / L.delta.1 = pixel L'.center.1 L.delta.1 - L'.interpRequest.offset.2 ∧
+    L'.center.2 / L.delta.2 = pixel L'.center.2 L.delta.2 - L'.interpRequest.offset.1 ∧
+    L'.interpRequest.matrix = (1, 1) ∧ L'.interpRequest.order = 5 ∧ L'.interpRequest.nearest = true ∧
+    (L'.sub = (0, 0) → L'.interpRequest.offset = (0, 0)) := by
+  intro L'
+  have hd : L'.delta = L.delta := by
+    show (InfL.extrudeN _ _ (InfL.extrudeN _ _ L)).delta = L.delta
+    rw [(InfL.extrudeN_params _ _ _).2.2.1, (InfL.extrudeN_params _ _ _).2.2.1]
+  have hs : L'.sub = (L'.center.1 - pixel L'.center.1 L.delta.1 * L.delta.1,
+      L'.center.2 - pixel L'.center.2 L.delta.2 * L.delta.2) := rfl
+  refine ⟨?_, ?_, rfl, rfl, rfl, ?_⟩
+  · show _ = _ - (-L'.sub.1 / L'.delta.1)
+    rw [hd, hs]
+    field_simp
+    ring
+  · show _ = _ - (-L'.sub.2 / L'.delta.2)
+    rw [hd, hs]
+    field_simp
+    ring
+  · intro h0
+    show ((-L'.sub.2 / L'.delta.2, -L'.sub.1 / L'.delta.1) : V2) = (0, 0)
+    rw [h0]
+    simp
+
+example : (InfL.new 3 3 (1/4, 1/2) (1/4, -1/2) ⟨1, 10⟩ 7).delta.1 ≠ 0 ∧ (InfL.new 3 3 (1/4, 1/2) (1/4, -1/2) ⟨1, 10⟩ 7).delta.2 ≠ 0 := by
+  decide +kernel
+
 /-! ## The synthesis hypothesis, executed: `synth` with the exact character into `ℚ[ℤ/M]`
 
 The driver op `C15 synth` runs `Shift.synth` itself with the character `cycChar M : ℚ → ℚ[ℤ/M]` on the real factory's
@@ -804,6 +839,32 @@ theorem heap_replay_after_reset_finite (k : SeedKind) (nx ny : Nat) (vel : V2) (
   show FinC.step C (.op (.reset false)) = _
   rw [FinC.reset_false_eq_fresh, hC, hk.1, hk.2.1, hk.2.2]
   rfl
+
+/-- **Replay after reset, heap form (infinite layer)**: build the layer any way (`k`: integer seed, a snapshot of the
+caller's generator, or — before D151 — the caller's generator itself), run any history of the layer's own operations
+without an independent reset (evolutions, refused backwards evolutions, plain resets, parameter changes) and reset:
+seen through the handles the layer is the freshly built layer with the velocity and parameters in force, so it shows
+the same screens under every later history. -/
+theorem heap_replay_after_reset_infinite (k : SeedKind) (nx ny : Nat) (delta vel : V2) (par : Par) (g : Rng)
+    (h₁ h : List Op) (hh : ∀ o ∈ h₁, o.isIndep = false) :
+    let H := (HInf.new k nx ny delta vel par g).run infAccess h₁
+    let L := H.view infAccess
+    ((H.step infAccess (.reset false)).run infAccess h).view infAccess
+      = (InfL.fresh nx ny delta L.vel L.par (g.draw (nx + ny))).run h := by
+  intro H L
+  obtain ⟨hw, hv, _⟩ := heap_new_infinite k nx ny delta vel par g
+  obtain ⟨e1, w1⟩ := heap_simulates_infinite _ hw h₁
+  obtain ⟨e2, w2, d2, _⟩ := HL.step_view infAccess infAccess_lawful H (.reset false) w1.1 (Or.inl w1.2)
+  rw [(heap_simulates_infinite _ ⟨w2, d2⟩ h).1, e2]
+  congr 1
+  have hL : L = (InfL.fresh nx ny delta vel par (g.draw (nx + ny))).run h₁ := by rw [← hv]; exact e1
+  have hp := (InfL.fresh nx ny delta vel par (g.draw (nx + ny))).run_shape h₁
+  have ho := (InfL.fresh nx ny delta vel par (g.draw (nx + ny))).run_orig h₁ hh
+  show L.reset false = _
+  rw [InfL.reset_false_eq_fresh, hL, hp.1, hp.2.1, hp.2.2, ho]
+  rfl
+
+example : ∀ o ∈ [Op.evolve 1, Op.setCn2 4, Op.evolve (1 / 2), Op.reset false, Op.evolve 3], o.isIndep = false := by decide
 
 /-! ## The finite layer's lazy noise and cached screen (`FinC`) -/
 
